@@ -661,6 +661,30 @@ def run(ctx):
         ctx.ob("C11.R9a", L.short(fn)[:110], ok, fn.loc,
                "a type whose writer consumes cached sizes must be sized (calculate_serialized_size) before it is written: without the "
                "size pass the writer emits the length prefixes of the previous value")
+    # R9d the flag is monotone along nesting: a writer that hands part of its value to a writer consuming cached sizes needs the
+    # size pass itself
+    n9d = 0
+    for fn in fb.find(pred=lambda f: f.name == "serialize" and f.has_cfg() and not f.lambda_ and
+                      re.match(r"^babylon::SerializeTraits<.*>$", f.record or "")):
+        own = const_of(fn.record, "SERIALIZED_SIZE_CACHED")
+        if own is None:
+            continue
+        ig = IG(fn, inline=lambda fr, ev, callee: callee.record == "babylon::SerializationHelper" and not callee.lambda_)
+        live = ig.live_nodes()
+        nested = set()
+        for n in ig.ev_nodes():
+            if n.id in live and n.ev["e"] == "call" and TRAIT_CALL.match(n.ev.get("callee", "") or ""):
+                t_ = trait_of(n.ev.get("callee"))
+                if t_ and t_ != fn.record:
+                    nested.add(t_)
+        need = sorted(t_ for t_ in nested if const_of(t_, "SERIALIZED_SIZE_CACHED") == "1")
+        n9d += 1
+        ctx.ob("C11.R9d", L.short(fn)[:110], not need or own == "1", fn.loc,
+               "this writer hands part of its value to %s, whose writer consumes cached sizes, but declares "
+               "SERIALIZED_SIZE_CACHED=false: the entry points then skip the size pass and the nested length prefixes are "
+               "whatever the caches held before" % ", ".join(x[len("babylon::SerializeTraits<"):-1][:60] for x in need[:3]),
+               site="%s@size-cached-flag" % fn.record[:140])
+    ctx.floor("C11.R9d", n9d, 25, "trait writers with a declared SERIALIZED_SIZE_CACHED")
     for fn in fb.find(pred=lambda f: f.record == "babylon::Serialization" and f.name in ("parse_from_coded_stream",) and f.has_cfg()):
         n9 += 1
         ig = IG(fn, inline=nin)
